@@ -152,13 +152,41 @@ async fn ws_burst(rqctx: RequestContext<vmon::srv::C>, upgraded: WebsocketConnec
     let uid = vmon::api::uid_of(&rqctx);
     let n: usize = rqctx.request.headers().get("x-vmon-size").and_then(|v| v.to_str().ok()).and_then(|s| s.parse().ok()).unwrap_or(0);
     rqctx.context().log.push("CH_ENTER", uid, 0, "burst");
-    let data = burst_payload(uid, n);
     let mut io = upgraded.into_inner();
+    if rqctx.request.headers().get("x-vmon-end").map(|v| v.as_bytes() == b"stall").unwrap_or(false) {
+        // write until nothing moves any more (the peer is not reading and every buffer on
+        // the way is full), flush, say how much was accepted, wait for the peer's ack
+        use tokio::io::AsyncReadExt;
+        let data = burst_payload(uid, 64 << 20);
+        let mut total = 0usize;
+        while total < data.len() {
+            let end = (total + 32 * 1024).min(data.len());
+            // a single write() is cancel-safe: still pending => nothing of the chunk accepted
+            match tokio::time::timeout(std::time::Duration::from_millis(400), io.write(&data[total..end])).await {
+                Ok(Ok(k)) => total += k,
+                Ok(Err(e)) => return Err(e.into()),
+                Err(_) => break,
+            }
+        }
+        // (said BEFORE the flush: a flush cannot finish while the peer reads nothing)
+        rqctx.context().log.push("CH_WROTE", uid, total as i64, "stall");
+        io.flush().await?;
+        rqctx.context().log.push("CH_FLUSHED", uid, total as i64, "");
+        let mut ack = [0u8; 1];
+        let _ = tokio::time::timeout(std::time::Duration::from_secs(60), io.read(&mut ack)).await;
+        return Ok(());
+    }
+    let data = burst_payload(uid, n);
     for chunk in data.chunks(48 * 1024) {
         io.write_all(chunk).await?;
     }
     io.flush().await?;
     rqctx.context().log.push("CH_WROTE", uid, n as i64, "");
+    // either an orderly end (close_notify) or simply letting go of the connection: what
+    // was written and flushed must arrive in both cases
+    if rqctx.request.headers().get("x-vmon-end").map(|v| v.as_bytes() == b"drop").unwrap_or(false) {
+        return Ok(());
+    }
     io.shutdown().await?;
     Ok(())
 }
@@ -439,7 +467,7 @@ fn run_c20(seed: u64, rounds: usize) -> Report {
         let mode_tag = if matches!(mode, HandlerTaskMode::Detached) { "det" } else { "cod" };
         for r in 0..rounds {
             let mut rng = Rng::derive(seed, "c20-tls", if mode_tag == "det" { 0 } else { 1 }, r as u64);
-            if rng.chance(1, 4) {
+            if rng.chance(1, 3) {
                 burst_round(&mut rep, &mut rng, srv.addr, &cfg, &log, seed, r, mode_tag);
                 continue;
             }
@@ -543,24 +571,42 @@ fn run_c20(seed: u64, rounds: usize) -> Report {
 #[allow(clippy::too_many_arguments)]
 fn burst_round(rep: &mut Report, rng: &mut Rng, addr: SocketAddr, cfg: &Arc<rustls::ClientConfig>, log: &EvLog, seed: u64, r: usize, mode_tag: &str) {
     let uid = next_uid();
-    let n = *rng.pick(&[1usize, 1000, 16_384, 65_536, 200_000, 1 << 20, 4 << 20]);
+    // large enough, with the client's small receive buffer, for the handler's writes to
+    // meet back-pressure (kernel buffers on loopback hold several megabytes)
+    let n = *rng.pick(&[1usize, 1000, 65_536, 1 << 20, 6 << 20, 12 << 20, 20 << 20]);
     let delay_ms = *rng.pick(&[0u64, 5, 50, 200]);
+    let end = *rng.pick(&["shutdown", "drop", "stall"]);
+    let slow_reader = rng.chance(1, 4);
+    // debugging aid only (never set by bin/check): VMON_BURST="<n>,<shutdown|drop>,<0|1>"
+    let dbg: Option<Vec<String>> = std::env::var("VMON_BURST").ok().map(|s| s.split(',').map(|x| x.to_string()).collect());
+    let (n, end, slow_reader) = match &dbg {
+        Some(v) if v.len() == 3 => (v[0].parse().unwrap_or(n), match v[1].as_str() { "drop" => "drop", "stall" => "stall", _ => "shutdown" }, v[2] == "1"),
+        _ => (n, end, slow_reader),
+    };
     let req = Req::new("GET", "/ws-burst")
         .uid(uid)
         .header("connection", "Upgrade")
         .header("upgrade", "websocket")
         .header("sec-websocket-version", "13")
         .header("sec-websocket-key", "dGhlIHNhbXBsZSBub25jZQ==")
-        .header("x-vmon-size", &n.to_string());
+        .header("x-vmon-size", &n.to_string())
+        .header("x-vmon-end", end);
     let Ok((mut c, hello)) = TlsClient::connect(addr, cfg) else {
         rep.inconclusive("connect");
         return;
     };
+    {
+        use std::os::fd::AsRawFd;
+        let sz: libc::c_int = 16 * 1024;
+        unsafe {
+            libc::setsockopt(c.sock.as_raw_fd(), libc::SOL_SOCKET, libc::SO_RCVBUF, &sz as *const _ as *const libc::c_void, std::mem::size_of::<libc::c_int>() as u32);
+        }
+    }
     if c.sock.write_all(&hello).is_err() {
         rep.inconclusive("hello write");
         return;
     }
-    rep.eval(format!("{mode_tag}|burst|n{n}|delay{delay_ms}"));
+    rep.eval(format!("{mode_tag}|burst|n{n}|delay{delay_ms}|{end}|{}", if slow_reader { "slow-reader" } else { "fast-reader" }));
     let resp = match c.request(&req.encode(), Duration::from_secs(20)) {
         Ok(r) => r,
         Err(e) => {
@@ -569,9 +615,67 @@ fn burst_round(rep: &mut Report, rng: &mut Rng, addr: SocketAddr, cfg: &Arc<rust
         }
     };
     let wit = |extra: serde_json::Value| json!({"seed": seed, "round": r, "mode": mode_tag, "transport": "tls", "case": "server-burst",
-        "burst_len": n, "client_read_delay_ms": delay_ms, "status": resp.status, "detail": extra});
+        "burst_len": n, "client_read_delay_ms": delay_ms, "handler_ends_with": end, "status": resp.status, "detail": extra});
     if resp.status != 101 {
         rep.violate("C20:complete-handshake-refused:tls", wit(json!({"body": String::from_utf8_lossy(&resp.body)})));
+        return;
+    }
+    if end == "stall" {
+        // the client reads nothing until the handler has written all it could, flushed,
+        // and said how much that was; then exactly that much must arrive
+        let Some(ev) = log.wait_for(|e| e.kind == "CH_WROTE" && e.uid == uid, Duration::from_secs(60)) else {
+            rep.inconclusive("stall handler did not report within 60 s");
+            let _ = c.raw_write(b"k");
+            return;
+        };
+        let total = ev.n as usize;
+        c.sock.set_read_timeout(Some(Duration::from_secs(20))).ok();
+        let mut got = c.pending.len();
+        let want = burst_payload(uid, 64 << 20);
+        let mut ok_content = c.pending[..] == want[..got.min(want.len())];
+        let mut tmp = vec![0u8; 1 << 16];
+        let mut ended = "complete";
+        {
+            let mut tls = rustls::Stream::new(&mut c.conn, &mut c.sock);
+            while got < total {
+                match tls.read(&mut tmp) {
+                    Ok(0) => {
+                        ended = "eof";
+                        break;
+                    }
+                    Ok(k) => {
+                        ok_content &= got + k <= want.len() && tmp[..k] == want[got..got + k];
+                        got += k;
+                    }
+                    Err(e) if e.kind() == std::io::ErrorKind::WouldBlock || e.kind() == std::io::ErrorKind::TimedOut => {
+                        ended = "no more bytes for 20 s";
+                        break;
+                    }
+                    Err(_) => {
+                        ended = "read error";
+                        break;
+                    }
+                }
+            }
+        }
+        let flushed = log.snapshot().iter().any(|e| e.kind == "CH_FLUSHED" && e.uid == uid);
+        let _ = c.raw_write(b"k");
+        if got < total && ok_content && !flushed {
+            rep.inconclusive("stalled writer: tail missing but the handler's flush() had not returned either");
+            return;
+        }
+        if got >= total && ok_content {
+            rep.count("tls_burst_bytes_received", total as u64);
+            rep.count("tls_stalled_writers_drained_completely", 1);
+        } else if !ok_content {
+            rep.violate("C20:post-upgrade-bytes-altered:tls:server-burst", wit(json!({"received": got, "accepted_and_flushed_by_handler": total})));
+        } else {
+            rep.violate(
+                "C20:post-upgrade-bytes-lost:tls:server-burst",
+                wit(json!({"received": got, "missing": total - got, "accepted_and_flushed_by_handler": total, "read_ended_by": ended,
+                           "what": "the handler's write()s accepted this many bytes and its flush() returned Ok; the reading client never got the tail"})),
+            );
+        }
         return;
     }
     // the client does not read for a while: the handler's writes meet back-pressure
@@ -585,7 +689,13 @@ fn burst_round(rep: &mut Report, rng: &mut Rng, addr: SocketAddr, cfg: &Arc<rust
         loop {
             match tls.read(&mut tmp) {
                 Ok(0) => break,
-                Ok(k) => got.extend_from_slice(&tmp[..k]),
+                Ok(k) => {
+                    got.extend_from_slice(&tmp[..k]);
+                    if slow_reader {
+                        // stay behind the writer: its last writes must meet back-pressure too
+                        std::thread::sleep(Duration::from_micros(1500));
+                    }
+                }
                 Err(e) if e.kind() == std::io::ErrorKind::WouldBlock || e.kind() == std::io::ErrorKind::TimedOut => {
                     ended = "timeout";
                     break;
@@ -598,6 +708,9 @@ fn burst_round(rep: &mut Report, rng: &mut Rng, addr: SocketAddr, cfg: &Arc<rust
                 break;
             }
         }
+    }
+    if dbg.is_some() {
+        eprintln!("burst n={n} end={end} slow={slow_reader} delay={delay_ms} got={} ended={ended}", got.len());
     }
     let want = burst_payload(uid, n);
     let wrote = log.snapshot().iter().any(|e| e.kind == "CH_WROTE" && e.uid == uid);
